@@ -3,8 +3,8 @@ on generated values of the prelude's domain (None, bool, int, str, lists of ints
 import driver
 from core import rng
 
-OPS1 = ["truthy", "not", "bool", "len", "max", "min", "asbool", "isinstance_bool", "isinstance_int", "isinstance_str"]
-OPS2 = ["and", "or", "eq", "ne", "lt", "le", "gt", "ge", "is", "isnot", "in", "notin", "add", "sub"]
+OPS1 = ["truthy", "not", "bool", "strip", "len", "max", "min", "asbool", "isinstance_bool", "isinstance_int", "isinstance_str"]
+OPS2 = ["find", "and", "or", "eq", "ne", "lt", "le", "gt", "ge", "is", "isnot", "in", "notin", "add", "sub"]
 
 
 def gen_value(r):
@@ -16,7 +16,7 @@ def gen_value(r):
     if k < 0.52:
         return r.choice([0, 1, -1, 2, 3, 7, 10, 255, -40, 10**12])
     if k < 0.75:
-        return r.choice(["", "a", "b", "ab", "abc", "true", " False ", "NaN", "nan", "stop", "1", "x y"])
+        return r.choice(["", "a", "b", "ab", "abc", "true", " False ", "NaN", "nan", "stop", "1", "x y", " no-keep\t", "keep", "\u2003run\u00a0"])
     if k < 0.9:
         return {"ints": [r.choice([0, 1, 2, 3, 5, None]) for _ in range(r.randint(0, 4))]}
     return {"strs": [r.choice(["raise", "stop", "a", ""]) for _ in range(r.randint(0, 3))]}
@@ -47,6 +47,10 @@ def py_eval(f, args):
             return not a[0]
         if f == "bool":
             return bool(a[0])
+        if f == "strip":
+            return a[0].strip()
+        if f == "find":
+            return a[0].find(a[1])
         if f == "and":
             return from_py(a[0] and a[1], args[1])
         if f == "or":
@@ -102,6 +106,8 @@ def outside(f, args):
         return True
     if f in ("in", "notin") and kinds[1] == "str" and kinds[0] != "str":
         return False
+    if f in ("strip", "find") and kinds[0] != "str":
+        return True            # method calls are translated for strings (anything else has no such method)
     if f in ("max", "min", "len") and kinds[0] not in ("list", "str"):
         return False
     if f in ("max", "min") and (kinds[0] == "str" or (isinstance(args[0], dict) and "strs" in args[0])):
